@@ -389,3 +389,15 @@ def execute(einx, d, state=None):
     if d["op"].startswith("adapt:"):
         return get_adapter(einx, d["op"][6:], state)(d["desc"], *ts, **kw)
     return getattr(einx, d["op"])(d["desc"], *ts, **kw)
+
+
+def rename_axes(d, tag, names=NAMES):
+    """Descriptor with every generator axis name n replaced by n+tag (run-unique names: no compile-cache
+    entry of an earlier run in the same process can be hit, whatever the cache implementation)."""
+    import re
+
+    pat = re.compile(r"\b(" + "|".join(names) + r")\b")
+    out = dict(d)
+    out["desc"] = pat.sub(lambda m: m.group(1) + tag, d["desc"])
+    out["kw"] = {(k + tag if k in names else k): v for k, v in d.get("kw", {}).items()}
+    return out
